@@ -14,12 +14,19 @@ CHECKS = {
 
 
 def load_fragments():
+    """Fragments of the properties listed in lib/props/READY (one id per line): those whose check has been
+    run on /repo and exits 0. A property that is built but not yet verified there stays under not_applicable."""
     d = os.path.join(VERIF, "lib", "props")
+    ready = set()
+    rp = os.path.join(d, "READY")
+    if os.path.exists(rp):
+        ready = {l.strip() for l in open(rp) if l.strip() and not l.startswith("#")}
     for f in sorted(os.listdir(d)):
         if f.endswith(".manifest.json"):
             with open(os.path.join(d, f)) as fh:
                 frag = json.load(fh)
-            CHECKS[frag["property_id"]] = frag
+            if frag["property_id"] in ready:
+                CHECKS[frag["property_id"]] = frag
 
 
 NOT_YET = "check not built yet (work in progress; see DESIGN.md section 10)"
